@@ -190,12 +190,13 @@ Proof.
     + constructor; [assumption | apply IH; assumption].
 Qed.
 
-Lemma start_go_keyed f n x c : forall ts r, start_go n x c ts = Some r -> run_keyed f (ekey f x) r.
+Lemma start_go_keyed f n lim x c : forall ts r, start_go n lim x c ts = Some r -> run_keyed f (ekey f x) r.
 Proof.
   induction ts as [|nx ts IH]; intros r H; cbn in H; [discriminate|].
   destruct (nth_error n nx) as [ns|]; [|discriminate].
   destruct (matches_state ns x []); [|apply IH; exact H].
-  inversion H; subst. unfold run_keyed, push. cbn. constructor; [reflexivity | constructor].
+  apply start_capture_fields in H. destruct H as (_ & Hs & _).
+  unfold run_keyed. rewrite Hs. unfold push. cbn. constructor; [reflexivity | constructor].
 Qed.
 
 Lemma backpressure_keyed f k st mx runs r c runs' added c' :
@@ -247,7 +248,7 @@ Proof.
   set (parts1 := match part_get key parts0 with Some _ => part_set key rs1 parts0 | None => parts0 end) in *.
   assert (Fp1 : parts_keyed f parts1).
   { unfold parts1. destruct (part_get key parts0); [apply part_set_keyed; assumption | exact F0]. }
-  destruct (try_start (g_nfa g) x (e_clock en)) as [r|] eqn:TS.
+  destruct (try_start (g_nfa g) (g_lim g) x (e_clock en)) as [r|] eqn:TS.
   - set (cur1 := match part_get key parts1 with Some rs => rs | None => [] end) in *.
     assert (Fc1 : Forall (run_keyed f key) cur1).
     { unfold cur1. destruct (part_get key parts1) eqn:E; [eapply part_get_keyed; eauto | constructor]. }
